@@ -106,6 +106,97 @@ def p0_value(func):
     return None
 
 
+def respelled_words(ctx, idx, L, dfas):
+    """C10.h: bounded enumeration over the extracted lexer and grammar (nothing of mpilot is executed)."""
+    import itertools
+    import json
+    import os
+
+    rel = L.mod.rel
+    con = "%s::Lexer::respelled-words" % rel
+    known = {}
+    kf = os.path.join(os.path.dirname(os.path.dirname(os.path.abspath(__file__))), "known_findings.json")
+    try:
+        with open(kf) as f:
+            for ent in json.load(f).get("findings", []):
+                if ent.get("rule") == "C10.f" and ent.get("construct", "").endswith("::restringified-number"):
+                    known = ent.get("number_syntax") or {}
+    except Exception:
+        known = {}
+    ref = {k: RL.dfa(v) for k, v in known.items()}
+    numeric = [r for r in L.priority if L.lexer_converts(r.name[2:]) in ("int", "float")]
+    if not numeric:
+        raise AnalysisError("C10.h: no token rule converts its text with int()/float()")
+    ignore = set(L.t_ignore or "")
+    alphabet = "107eE.-+a"
+    prio = [r for r in L.priority if r.name[2:] in (L.tokens or [])]
+
+    def longest(A, text, i):
+        q, best = A.start, None
+        j = i
+        if q in A.acc:
+            best = i
+        while j < len(text):
+            q = A.tr.get((q, RL.atom_of(text[j])))
+            if q is None:
+                break
+            j += 1
+            if q in A.acc:
+                best = j
+        return best
+
+    def tokenise(text):
+        out, i = [], 0
+        while i < len(text):
+            if text[i] in ignore:
+                i += 1
+                continue
+            for r in prio:
+                j = longest(dfas[r.name], text, i)
+                if j is not None and j > i:
+                    out.append((r.name[2:], text[i:j]))
+                    i = j
+                    break
+            else:
+                return None
+        return out
+
+    conv = {r.name[2:]: L.lexer_converts(r.name[2:]) for r in numeric}
+    n_words = n_resp = 0
+    new = []
+    for n in range(2, 6):
+        for tup in itertools.product(alphabet, repeat=n):
+            w = "".join(tup)
+            toks = tokenise(w)
+            if not toks or len(toks) < 2 or not any(t in conv for t, _x in toks):
+                continue
+            if not grammar.derives(L.productions, "plain_string", [t for t, _x in toks]):
+                continue
+            n_words += 1
+            parts = []
+            for t, x in toks:
+                if t in conv:
+                    try:
+                        parts.append(str(int(x) if conv[t] == "int" else float(x)))
+                    except ValueError:
+                        parts.append(x)
+                else:
+                    parts.append(x)
+            if "".join(parts) == w:
+                continue
+            n_resp += 1
+            outside = [(t, x) for t, x in toks if t in conv and not any(RL.accepts(A, x) for A in ref.values())]
+            if outside and len(new) < 3:
+                new.append((w, "".join(parts), outside[0]))
+    ctx.count("unquoted_words_enumerated", n_words)
+    ctx.count("unquoted_words_respelled", n_resp)
+    if n_words < 100:
+        raise AnalysisError("C10.h: only %d number-led words were derived as plain strings (the enumeration no longer reaches the production it is about)" % n_words)
+    ctx.ob("C10.h", con, rel, numeric[0].node.lineno, not new,
+           "%d of %d number-led words are re-spelled, all of them through a number in the recorded syntax (the known finding)" % (n_resp, n_words) if not new else
+           "the unquoted word `%s` is read as `%s`: its head `%s` is taken for a %s token, which the number syntax recorded with the known finding does not include - a label or file name that merely starts like a number in the widened pattern loses its spelling" % (new[0][0], new[0][1], new[0][2][1], new[0][2][0]))
+
+
 def run(ctx, idx):
     ctx.assume("PLY 3.11 facts (DESIGN A.2): function rules in definition order then string rules by decreasing pattern length; first matching alternative wins; t_ignore characters are skipped before every token")
     ctx.assume("reference languages L_int_builtin / L_float_builtin are the strings int() / float() accept (fixed by Python)")
@@ -116,9 +207,11 @@ def run(ctx, idx):
     ctx.rule("C10.e", "Layout: optional trailing separator and empty forms exist for argument_list, elements, tuple_pairs, arguments, list.")
     ctx.rule("C10.f", "Text is not reconstructed lossily: a converted numeric token is never re-stringified; token values are never concatenated across positions where ignored characters may have been skipped; quotes are removed positionally (v[1:-1]); the escape codec is byte-transparent for non-ASCII and decoding errors become SyntaxError.")
     ctx.rule("C10.g", "Malformed text is a syntax error: t_error and p_error raise SyntaxError on every path.")
+    ctx.rule("C10.h", "The words that come back re-spelled are only those the recorded finding describes: over all unquoted words of up to five characters from a small alphabet (digits, e/E, point, signs, a letter), tokenised with the extracted token automata in PLY's order and derived with the extracted grammar, a word whose value differs from its text starts with a number in the syntax recorded with the finding (C10.f restringified-number). A word re-spelled through a numeric token outside that syntax is a new defect (a widened number pattern swallowing the head of a label or file name).")
     L = grammar.Lexicon(idx)
     rel = L.mod.rel
     dfas = {r.name: RL.dfa(r.pattern) for r in L.rules}
+    respelled_words(ctx, idx, L, dfas)
     ctx.count("token_rules", len(L.rules))
     ctx.count("productions", len(L.productions))
     ctx.floor("C10.a", "productions", len(L.productions), 30)
